@@ -191,6 +191,15 @@ def explore(ctx):
     queries = list(base) + list(STATIC_ERRORS) + planted
     for i in range(n):
         queries.append(mutate(rng, rng.choice(base)))
+    # text left over at the very end of a query whose earlier part contains multi-byte characters (offsets in bytes
+    # versus characters): a whole extra token, field or stage must be rejected or take effect, never be dropped
+    TAILS = [' b', ' x y', ' 5', ', z', ' | count', ' | limit 1', ' | fields id', ' extra', ')', ' as q']
+    HEADS = ['"日本語" OR * | ', 'NOT "日本語のログ行です" | ', '"żółć" OR "ł" OR * | ', '* | json | where s != "日本語日本語日本語" | ', '"😀😀" OR * | ']
+    for i in range(120 if quick else 2500):
+        b = rng.choice(base)
+        if not b.startswith('* | '):
+            continue
+        queries.append(rng.choice(HEADS) + b[4:] + rng.choice(TAILS))
     # deep nesting
     for d in (5, 20, 40):
         queries.append('* | json | ' + '(' * d + 'a' + ')' * d + ' as x')
@@ -264,7 +273,7 @@ def explore(ctx):
     cov = {
         'evaluations': len(queries) + len(acc), 'distinct_nontrivial': nontrivial,
         'rule': 'valid queries (README, tests/structured_tests, an explicit list, AST generator) and their one/two-token mutations (delete, duplicate, insert operator/bracket/quote/keyword, append text), '
-                'Unicode injection (non-ASCII letters, smart quotes, combining marks, 4-byte characters) at any position, nesting up to 40, the documented static errors, valid queries with an unknown function planted at a random position of a random expression (also in the dead branch of an if with a literal condition); '
+                'Unicode injection (non-ASCII letters, smart quotes, combining marks, 4-byte characters) at any position, nesting up to 40, the documented static errors, queries with multi-byte text early and a left-over token / field / stage at the very end, valid queries with an unknown function planted at a random position of a random expression (also in the dead branch of an if with a literal condition); '
                 'observed on the real binary: no crash/hang, reject => non-empty stderr and empty stdout; accept/reject compared with the grammar model; accepted queries run and compared with the model\'s reading; '
                 'non-trivial = a non-ASCII query or one with >= 3 stages',
         'samples': [{'query': q} for q in queries[len(base) + len(STATIC_ERRORS):len(base) + len(STATIC_ERRORS) + 4]],
